@@ -52,15 +52,11 @@ Qed.
 
 (** * Part 2: the engine's steps on positional values *)
 
-(** [parse_positional]'s number of values the positional may still take *)
-Definition eng_num_args (a : arg) : N :=
-  match a_get_action a with
-  | AAppend => usize_max
-  | _ => match a_num a with Some r => vmax r | None => 1 end
-  end.
-
 Lemma find_pos_args c c' n : c_args c = c_args c' -> find_pos c n = find_pos c' n.
 Proof. unfold find_pos, positionals. intros ->. reflexivity. Qed.
+
+Lemma exists_last_or_nil {A} (l : list A) : l = [] \/ exists init lst, l = init ++ [lst].
+Proof. destruct l as [|x t]; [left; reflexivity|right]. destruct (@exists_last A (x :: t)) as [i [y E]]; [discriminate|eauto]. Qed.
 
 Section EnginePositionals.
 Variables pc cur : cmd.
@@ -107,26 +103,27 @@ Qed.
 
 (** `<value>` of a single-valued positional: back in [ValueDone], index + 1, an argument was seen *)
 Lemma eng_pos_single tok a pos evaf :
-  possible_subcommand pc tok evaf = None -> plain_tok tok -> get_pos pc pos = Some a -> a_is_multiple a = false ->
+  possible_subcommand pc tok evaf = None -> plain_tok tok -> get_pos pc pos = Some a -> check_terminator a tok = false ->
+  a_is_multiple a = false ->
   shadow_step tok cur pos false ValueDone evaf = SNext cur (pos + 1) false ValueDone true.
 Proof.
-  intros Hns Hpl Hg Hm. destruct (eng_plain_lex tok Hpl) as [He [Hl Hs]].
+  intros Hns Hpl Hg Hct Hm. destruct (eng_plain_lex tok Hpl) as [He [Hl Hs]].
   assert (Hin : In a (c_args pc)) by (apply (UnparseProofs.get_pos_in pc pos a Hg)).
   unfold shadow_step. cbn [negb]. rewrite (eng_not_sub tok _ evaf Hns).
   rewrite He, opt_allows_hyphen_vd, Hl, Hs.
-  unfold parse_positional. rewrite find_pos_el, Hg.
+  unfold parse_positional. rewrite find_pos_el, Hg, is_value_terminator_check, Hct. cbn [negb andb].
   pose proof (single_num_args a Hin Hm) as Hn. unfold eng_num_args in Hn. rewrite Hn. reflexivity.
 Qed.
 
 (** the first value of a multi-valued positional: [Pos pos 1], same index *)
 Lemma eng_pos_first tok a pos evaf :
-  no_sub pc tok -> plain_tok tok -> get_pos pc pos = Some a -> 1 < eng_num_args a ->
+  no_sub pc tok -> plain_tok tok -> get_pos pc pos = Some a -> check_terminator a tok = false -> 1 < eng_num_args a ->
   shadow_step tok cur pos false ValueDone evaf = SNext cur pos false (Pos pos 1) true.
 Proof.
-  intros Hns Hpl Hg Hn. destruct (eng_plain_lex tok Hpl) as [He [Hl Hs]].
+  intros Hns Hpl Hg Hct Hn. destruct (eng_plain_lex tok Hpl) as [He [Hl Hs]].
   unfold shadow_step. cbn [negb]. rewrite (eng_no_sub pc cur tok _ Hrel Hns).
   rewrite He, opt_allows_hyphen_vd, Hl, Hs.
-  unfold parse_positional. rewrite find_pos_el, Hg.
+  unfold parse_positional. rewrite find_pos_el, Hg, is_value_terminator_check, Hct. cbn [negb andb].
   apply N.ltb_lt in Hn. unfold eng_num_args in Hn. rewrite Hn. reflexivity.
 Qed.
 
@@ -137,10 +134,10 @@ Proof. destruct arg; [reflexivity|]. cbn [opt_allows_hyphen]. apply andb_false_r
     [subcommand_precedence_over_arg] *)
 Lemma eng_pos_more tok a pos k evaf :
   (is_set s_sub_precedence pc = true -> no_sub pc tok) -> plain_tok tok -> get_pos pc pos = Some a ->
-  k + 1 < eng_num_args a ->
+  check_terminator a tok = false -> k + 1 < eng_num_args a ->
   shadow_step tok cur pos false (Pos pos k) evaf = SNext cur pos false (Pos pos (k + 1)) true.
 Proof.
-  intros Hns Hpl Hg Hn. destruct (eng_plain_lex tok Hpl) as [He [Hl Hs]].
+  intros Hns Hpl Hg Hct Hn. destruct (eng_plain_lex tok Hpl) as [He [Hl Hs]].
   unfold shadow_step. cbn [negb]. rewrite orb_false_r.
   assert (Hsub : (if (is_set s_sub_precedence cur && negb (is_set s_args_negate_subs cur && evaf)) && utf8_valid tok
                   then find_subcommand cur tok else None) = None).
@@ -148,22 +145,36 @@ Proof.
     destruct (is_set s_sub_precedence pc) eqn:Ep; [|reflexivity].
     exact (eng_no_sub pc cur tok _ Hrel (Hns eq_refl)). }
   rewrite Hsub, He, opt_allows_hyphen_pos, Hl, Hs.
-  unfold parse_positional. rewrite find_pos_el, Hg, N.eqb_refl.
+  unfold parse_positional. rewrite find_pos_el, Hg, is_value_terminator_check, Hct, N.eqb_refl. cbn [negb andb].
   apply N.ltb_lt in Hn. unfold eng_num_args in Hn. rewrite Hn. reflexivity.
 Qed.
 
-(** POS_INDEX AGREEMENT, options and single-valued positionals: along [pitems18] the engine's index moves from
-    [pos] to [pos'] exactly as the parser's counter does ([EngineItems.loop_pitems18]) *)
-Theorem eng_pitems evaf pos pre F pos' : pitems18 pc evaf pos pre F pos' ->
-  shadow_run pre cur pos false ValueDone evaf = SNext cur pos' false ValueDone (evaf || negb (is_nil pre)).
+(** the value terminator of the positional at the index, between arguments or while that positional is being filled:
+    the index moves on, back in [ValueDone] (the repair of finding C18-value-terminator) *)
+Lemma eng_pos_term_vd t a pos evaf :
+  possible_subcommand pc t evaf = None -> plain_tok t -> get_pos pc pos = Some a -> check_terminator a t = true ->
+  shadow_step t cur pos false ValueDone evaf = SNext cur (pos + 1) false ValueDone true.
 Proof.
-  induction 1 as [evaf pos|evaf pos toks F pre G pos' Hi Hp IH|evaf pos tok a pre G pos' Hns Hpl Ht Hm Hp IH].
-  - cbn [shadow_run is_nil negb]. rewrite orb_false_r. reflexivity.
-  - rewrite shadow_run_app, (eng_item18 pc cur L toks F pos evaf Hi), IH.
-    pose proof (item18_nonempty pc toks F Hi) as Hne. destruct toks as [|t0 ts]; [discriminate|].
-    cbn [app is_nil negb orb]. rewrite orb_true_r. reflexivity.
-  - cbn [shadow_run]. destruct Ht as [_ [Hg _]].
-    rewrite (eng_pos_single tok a pos evaf Hns Hpl Hg Hm), IH. cbn [is_nil negb orb]. rewrite orb_true_r. reflexivity.
+  intros Hns Hpl Hg Hct. destruct (eng_plain_lex t Hpl) as [He [Hl Hs]].
+  unfold shadow_step. cbn [negb]. rewrite (eng_not_sub t _ evaf Hns).
+  rewrite He, opt_allows_hyphen_vd, Hl, Hs.
+  unfold parse_positional. rewrite find_pos_el, Hg, is_value_terminator_check, Hct. reflexivity.
+Qed.
+
+Lemma eng_pos_term_pos t a pos k evaf :
+  (is_set s_sub_precedence pc = true -> no_sub pc t) -> plain_tok t -> get_pos pc pos = Some a ->
+  check_terminator a t = true ->
+  shadow_step t cur pos false (Pos pos k) evaf = SNext cur (pos + 1) false ValueDone true.
+Proof.
+  intros Hns Hpl Hg Hct. destruct (eng_plain_lex t Hpl) as [He [Hl Hs]].
+  unfold shadow_step. cbn [negb]. rewrite orb_false_r.
+  assert (Hsub : (if (is_set s_sub_precedence cur && negb (is_set s_args_negate_subs cur && evaf)) && utf8_valid t
+                  then find_subcommand cur t else None) = None).
+  { rewrite <- (lvl_rel_is_set pc cur s_sub_precedence Hrel).
+    destruct (is_set s_sub_precedence pc) eqn:Ep; [|reflexivity].
+    exact (eng_no_sub pc cur t _ Hrel (Hns eq_refl)). }
+  rewrite Hsub, He, opt_allows_hyphen_pos, Hl, Hs.
+  unfold parse_positional. rewrite find_pos_el, Hg, is_value_terminator_check, Hct. reflexivity.
 Qed.
 
 Lemma eng_multi_more a pos : forall vs k,
@@ -175,8 +186,8 @@ Proof.
   induction vs as [|v t IH]; intros k Hprec Hall Hn.
   - cbn [shadow_run length N.of_nat]. rewrite N.add_0_r. reflexivity.
   - inversion Hall as [|v0 t0 [Hpl Ht] Hall']; subst. cbn [shadow_run].
-    destruct Ht as [_ [Hg _]].
-    rewrite (eng_pos_more v a pos k true); [|intros Ep; specialize (Hprec Ep); inversion Hprec; assumption|exact Hpl|exact Hg|].
+    destruct Ht as [_ [Hg [_ [_ Hct]]]].
+    rewrite (eng_pos_more v a pos k true); [|intros Ep; specialize (Hprec Ep); inversion Hprec; assumption|exact Hpl|exact Hg|exact Hct|].
     2:{ cbn [length] in Hn. lia. }
     rewrite IH.
     + replace (k + 1 + N.of_nat (length t)) with (k + N.of_nat (length (v :: t))) by (cbn [length]; lia). reflexivity.
@@ -192,11 +203,88 @@ Theorem eng_multi a pos v1 vs evaf : multi_vals pc pos a v1 vs ->
   shadow_run (v1 :: vs) cur pos false ValueDone evaf = SNext cur pos false (Pos pos (N.of_nat (length (v1 :: vs)))) true.
 Proof.
   intros [Hm [Hns [Hprec Hall]]] Hn. inversion Hall as [|v0 t0 [Hpl Ht] Hall']; subst.
-  cbn [shadow_run]. destruct Ht as [_ [Hg _]].
-  rewrite (eng_pos_first v1 a pos evaf Hns Hpl Hg) by (cbn [length] in Hn; lia).
+  cbn [shadow_run]. destruct Ht as [_ [Hg [_ [_ Hct]]]].
+  rewrite (eng_pos_first v1 a pos evaf Hns Hpl Hg Hct) by (cbn [length] in Hn; lia).
   rewrite (eng_multi_more a pos vs 1 Hprec Hall') by (cbn [length] in Hn; lia).
   replace (1 + N.of_nat (length vs)) with (N.of_nat (length (v1 :: vs))) by (cbn [length]; lia). reflexivity.
 Qed.
+
+(** the LAST value a bounded positional may take (the engine's [num_args] is reached): the engine moves on - back in
+    [ValueDone], index + 1 - where the parser stays in [PSPos] at the same counter *)
+Lemma eng_pos_only tok a pos evaf :
+  no_sub pc tok -> plain_tok tok -> get_pos pc pos = Some a -> check_terminator a tok = false -> eng_num_args a <= 1 ->
+  shadow_step tok cur pos false ValueDone evaf = SNext cur (pos + 1) false ValueDone true.
+Proof.
+  intros Hns Hpl Hg Hct Hn. destruct (eng_plain_lex tok Hpl) as [He [Hl Hs]].
+  unfold shadow_step. cbn [negb]. rewrite (eng_no_sub pc cur tok _ Hrel Hns).
+  rewrite He, opt_allows_hyphen_vd, Hl, Hs.
+  unfold parse_positional. rewrite find_pos_el, Hg, is_value_terminator_check, Hct. cbn [negb andb].
+  assert (Hn' : (1 <? eng_num_args a) = false) by (apply N.ltb_ge; exact Hn).
+  unfold eng_num_args in Hn'. rewrite Hn'. reflexivity.
+Qed.
+
+Lemma eng_pos_last tok a pos k evaf :
+  (is_set s_sub_precedence pc = true -> no_sub pc tok) -> plain_tok tok -> get_pos pc pos = Some a ->
+  check_terminator a tok = false -> eng_num_args a <= k + 1 ->
+  shadow_step tok cur pos false (Pos pos k) evaf = SNext cur (pos + 1) false ValueDone true.
+Proof.
+  intros Hns Hpl Hg Hct Hn. destruct (eng_plain_lex tok Hpl) as [He [Hl Hs]].
+  unfold shadow_step. cbn [negb]. rewrite orb_false_r.
+  assert (Hsub : (if (is_set s_sub_precedence cur && negb (is_set s_args_negate_subs cur && evaf)) && utf8_valid tok
+                  then find_subcommand cur tok else None) = None).
+  { rewrite <- (lvl_rel_is_set pc cur s_sub_precedence Hrel).
+    destruct (is_set s_sub_precedence pc) eqn:Ep; [|reflexivity].
+    exact (eng_no_sub pc cur tok _ Hrel (Hns eq_refl)). }
+  rewrite Hsub, He, opt_allows_hyphen_pos, Hl, Hs.
+  unfold parse_positional. rewrite find_pos_el, Hg, is_value_terminator_check, Hct, N.eqb_refl. cbn [negb andb].
+  assert (Hn' : (k + 1 <? eng_num_args a) = false) by (apply N.ltb_ge; exact Hn).
+  unfold eng_num_args in Hn'. rewrite Hn'. reflexivity.
+Qed.
+
+(** ... all the values a bounded multi-valued positional may take *)
+Theorem eng_multi_max a pos v1 vs evaf : multi_vals pc pos a v1 vs ->
+  N.of_nat (length (v1 :: vs)) = N.max 1 (eng_num_args a) ->
+  shadow_run (v1 :: vs) cur pos false ValueDone evaf = SNext cur (pos + 1) false ValueDone true.
+Proof.
+  intros [Hm [Hns [Hprec Hall]]] Hn. inversion Hall as [|v0 t0 [Hpl Ht] Hall']; subst.
+  destruct Ht as [_ [Hg [_ [_ Hct]]]].
+  destruct (exists_last_or_nil vs) as [->|[init [lst ->]]].
+  - cbn [shadow_run]. cbn [length] in Hn.
+    rewrite (eng_pos_only v1 a pos evaf Hns Hpl Hg Hct); [reflexivity|lia].
+  - rewrite app_comm_cons, shadow_run_app.
+    assert (Hlen : N.of_nat (length (v1 :: init)) + 1 = eng_num_args a).
+    { cbn [length] in Hn. rewrite app_length in Hn. cbn [length] in *. lia. }
+    apply Forall_app in Hall'. destruct Hall' as [Hinit Hlast]. inversion Hlast as [|x t [Hpll Htl] _]; subst.
+    assert (Hprec' : is_set s_sub_precedence pc = true -> Forall (no_sub pc) init /\ no_sub pc lst).
+    { intros Ep. specialize (Hprec Ep). apply Forall_app in Hprec. destruct Hprec as [H1 H2]. inversion H2; subst. auto. }
+    rewrite (eng_multi a pos v1 init evaf); [|refine (conj Hm (conj Hns (conj _ _)))|lia].
+    + cbn [shadow_run]. destruct Htl as [_ [_ [_ [_ Hctl]]]].
+      rewrite (eng_pos_last lst a pos _ true); [reflexivity|intros Ep; exact (proj2 (Hprec' Ep))|exact Hpll|exact Hg|exact Hctl|lia].
+    + intros Ep. exact (proj1 (Hprec' Ep)).
+    + apply Forall_cons; [split; [exact Hpl|split; [|split; [exact Hg|]]]|exact Hinit].
+      * inversion Hall as [|? ? [_ [Hpp _]] _]; exact Hpp.
+      * inversion Hall as [|? ? [_ [_ [_ H3]]] _]; exact H3.
+Qed.
+
+(** POS_INDEX AGREEMENT, options and single-valued positionals: along [pitems18] the engine's index moves from
+    [pos] to [pos'] exactly as the parser's counter does ([EngineItems.loop_pitems18]) *)
+Theorem eng_pitems evaf pos pre F pos' : pitems18 pc evaf pos pre F pos' ->
+  shadow_run pre cur pos false ValueDone evaf = SNext cur pos' false ValueDone (evaf || negb (is_nil pre)).
+Proof.
+  induction 1 as [evaf pos|evaf pos toks F pre G pos' Hi Hp IH|evaf pos tok a pre G pos' Hns Hpl Ht Hm Hp IH
+                   |evaf pos t a pre G pos' Hns Hpl Ht Hp IH|evaf pos a v1 vs t pre G pos' Hmv Hlen Hns Hpl Ht Hp IH].
+  - cbn [shadow_run is_nil negb]. rewrite orb_false_r. reflexivity.
+  - rewrite shadow_run_app, (eng_item18 pc cur L toks F Hi pos evaf), IH.
+    pose proof (item18_nonempty pc toks F Hi) as Hne. destruct toks as [|t0 ts]; [discriminate|].
+    cbn [app is_nil negb orb]. rewrite orb_true_r. reflexivity.
+  - cbn [shadow_run]. destruct Ht as [_ [Hg [_ [_ Hct]]]].
+    rewrite (eng_pos_single tok a pos evaf Hns Hpl Hg Hct Hm), IH. cbn [is_nil negb orb]. rewrite orb_true_r. reflexivity.
+  - cbn [shadow_run]. destruct Ht as [_ [Hg [_ [_ Hct]]]].
+    rewrite (eng_pos_term_vd t a pos evaf Hns Hpl Hg Hct), IH. cbn [is_nil negb orb]. rewrite orb_true_r. reflexivity.
+  - rewrite shadow_run_app, (eng_multi a pos v1 vs evaf Hmv Hlen). cbn [shadow_run]. destruct Ht as [_ [Hg [_ [_ Hct]]]].
+    rewrite (eng_pos_term_pos t a pos _ true Hns Hpl Hg Hct), IH. cbn [app is_nil negb orb]. rewrite orb_true_r. reflexivity.
+Qed.
+
 
 (** a subcommand name behind the values of a multi-valued positional, on a level with
     [subcommand_precedence_over_arg]: the engine descends *)
@@ -230,20 +318,30 @@ Proof. intros [V Hsa Hal _]. constructor; assumption. Qed.
     ends in: [ValueDone] where the parser is in [PSValuesDone]; [Pos pos k] after [k] values of the multi-valued
     positional [a] where the parser is in [PSPos (a_id a)] - as long as [a] can take more ([k] below the
     engine's [num_args]: the maximum of the range, unbounded for an appending positional) *)
-Inductive body18 (c : cmd) : list bytes -> (ps -> res ps) -> pstate_t -> N -> pstate -> Prop :=
-| b18_plain pre F pos' : pitems18 c false 1 pre F pos' -> body18 c pre F PSValuesDone pos' ValueDone
+Inductive body18 (c : cmd) : list bytes -> (ps -> res ps) -> pstate_t -> N -> pstate -> N -> Prop :=
+| b18_plain pre F pos' : pitems18 c false 1 pre F pos' -> body18 c pre F PSValuesDone pos' ValueDone pos'
 | b18_multi pre F pos' a v1 vs : pitems18 c false 1 pre F pos' -> multi_vals c pos' a v1 vs ->
     N.of_nat (length (v1 :: vs)) < eng_num_args a ->
     body18 c (pre ++ v1 :: vs) (fun st => do st' <- F st; push_all c a (v1 :: vs) st') (PSPos (a_id a)) pos'
-           (Pos pos' (N.of_nat (length (v1 :: vs)))).
+           (Pos pos' (N.of_nat (length (v1 :: vs)))) pos'
+| b18_multi_max pre F pos' a v1 vs :   (* round 5: ALL the values a bounded positional may take - the engine moves on *)
+    pitems18 c false 1 pre F pos' -> multi_vals c pos' a v1 vs ->
+    N.of_nat (length (v1 :: vs)) = N.max 1 (eng_num_args a) ->
+    body18 c (pre ++ v1 :: vs) (fun st => do st' <- F st; push_all c a (v1 :: vs) st') (PSPos (a_id a)) pos'
+           ValueDone (pos' + 1).
 
 (** the parser side ([ChainWide.loop_wbody] over the wider items) *)
-Lemma loop_body18 c pre F pst pos' est : body18 c pre F pst pos' est -> forall rest st, fs_skip st = 0 ->
+Lemma loop_body18 c pre F pst pos' est epos : body18 c pre F pst pos' est epos -> forall rest st, fs_skip st = 0 ->
   parse_loop c (pre ++ rest) (lsV 1 false) st =
   (do st' <- F st; parse_loop c rest (mkL pst pos' (negb (is_nil pre)) false) st').
 Proof.
-  intros [pre0 F0 pos0 Hp|pre0 F0 pos0 a v1 vs Hp Hm _] rest st Hfs.
+  intros [pre0 F0 pos0 Hp|pre0 F0 pos0 a v1 vs Hp Hm _|pre0 F0 pos0 a v1 vs Hp Hm _] rest st Hfs.
   - exact (loop_pitems18 c false 1 pre0 F0 pos0 Hp rest st Hfs).
+  - rewrite <- app_assoc. rewrite (loop_pitems18 c false 1 pre0 F0 pos0 Hp ((v1 :: vs) ++ rest) st Hfs).
+    destruct (F0 st) as [st1|e s1|x]; cbn [rbind]; try reflexivity.
+    rewrite (loop_multi c pos0 a v1 vs Hm rest _ st1).
+    replace (negb (is_nil (pre0 ++ v1 :: vs))) with true; [reflexivity|].
+    destruct pre0; reflexivity.
   - rewrite <- app_assoc. rewrite (loop_pitems18 c false 1 pre0 F0 pos0 Hp ((v1 :: vs) ++ rest) st Hfs).
     destruct (F0 st) as [st1|e s1|x]; cbn [rbind]; try reflexivity.
     rewrite (loop_multi c pos0 a v1 vs Hm rest _ st1).
@@ -251,24 +349,29 @@ Proof.
     destruct pre0; reflexivity.
 Qed.
 
-Lemma body18_fs c pre F pst pos' est : body18 c pre F pst pos' est -> forall st st', F st = ROk st' ->
+Lemma body18_fs c pre F pst pos' est epos : body18 c pre F pst pos' est epos -> forall st st', F st = ROk st' ->
   fs_skip st' = fs_skip st /\ fs_at st' = fs_at st.
 Proof.
-  intros [pre0 F0 pos0 Hp|pre0 F0 pos0 a v1 vs Hp Hm _] st st' H.
+  intros [pre0 F0 pos0 Hp|pre0 F0 pos0 a v1 vs Hp Hm _|pre0 F0 pos0 a v1 vs Hp Hm _] st st' H.
   - exact (pitems18_fs c false 1 pre0 F0 pos0 Hp st st' H).
+  - destruct (F0 st) as [st1|e s1|x] eqn:E; cbn [rbind] in H; try discriminate.
+    destruct (pitems18_fs c false 1 pre0 F0 pos0 Hp st st1 E) as [H1 H2].
+    destruct (push_all_fs c a _ _ _ H) as [H3 H4]. rewrite H3, H4. split; assumption.
   - destruct (F0 st) as [st1|e s1|x] eqn:E; cbn [rbind] in H; try discriminate.
     destruct (pitems18_fs c false 1 pre0 F0 pos0 Hp st st1 E) as [H1 H2].
     destruct (push_all_fs c a _ _ _ H) as [H3 H4]. rewrite H3, H4. split; assumption.
 Qed.
 
 (** STATE AND POS_INDEX AGREEMENT on one level, engine side (the parser side is [loop_body18]) *)
-Theorem eng_body pc cur pre F pst pos est : elevel pc cur -> body18 pc pre F pst pos est ->
-  shadow_run pre cur 1 false ValueDone false = SNext cur pos false est (negb (is_nil pre)).
+Theorem eng_body pc cur pre F pst pos est epos : elevel pc cur -> body18 pc pre F pst pos est epos ->
+  shadow_run pre cur 1 false ValueDone false = SNext cur epos false est (negb (is_nil pre)).
 Proof.
-  intros L [pre0 F0 pos0 Hp|pre0 F0 pos0 a v1 vs Hp Hm Hn].
+  intros L [pre0 F0 pos0 Hp|pre0 F0 pos0 a v1 vs Hp Hm Hn|pre0 F0 pos0 a v1 vs Hp Hm Hn].
   - exact (eng_pitems pc cur L false 1 pre0 F0 pos0 Hp).
   - rewrite shadow_run_app, (eng_pitems pc cur L false 1 pre0 F0 pos0 Hp).
     rewrite (eng_multi pc cur L a pos0 v1 vs _ Hm Hn). destruct pre0; reflexivity.
+  - rewrite shadow_run_app, (eng_pitems pc cur L false 1 pre0 F0 pos0 Hp).
+    rewrite (eng_multi_max pc cur L a pos0 v1 vs _ Hm Hn). destruct pre0; reflexivity.
 Qed.
 
 (** where the parser looks for a subcommand name: between arguments, or - while a positional is being filled -
@@ -284,8 +387,8 @@ Definition may_select (c : cmd) (pst : pstate_t) : Prop :=
     of [pcf] was seen - the parser's flag [valid_arg_found] and, since the repair, the engine's *)
 Inductive pline : cmd -> list bytes -> cmd -> N -> bool -> Prop :=
 | pl_here pc pre F pos' : lvlw pc -> pitems18 pc false 1 pre F pos' -> pline pc pre pc pos' (negb (is_nil pre))
-| pl_down pc pre F pst pos' est tok sc0 pc' rest pcf posf vf :
-    lvlw pc -> body18 pc pre F pst pos' est -> may_select pc pst ->
+| pl_down pc pre F pst pos' est epos tok sc0 pc' rest pcf posf vf :
+    lvlw pc -> body18 pc pre F pst pos' est epos -> may_select pc pst ->
     (is_set s_args_negate_subs pc = true -> pre = []) ->
     utf8_valid tok = true -> find_subcommand pc tok = Some sc0 -> aliases_to sc0 s_help = false ->
     build_subcommand pc (c_name sc0) = Some pc' -> pline pc' rest pcf posf vf ->
@@ -299,7 +402,7 @@ Theorem cline_pline pc line pcf : cline pc line pcf -> exists vf, pline pc line 
 Proof.
   induction 1 as [pc pre Hl [F Hp]|pc pre tok sc0 pc' rest pcf Hl [F Hp] Hu Hf Hnh Hb Hline [vf IH]].
   - eexists. eapply pl_here; [exact (lvl18_lvlw pc Hl)|exact (pitems_pitems18 pc 1 pre F 1 (prefix_pitems pc pre F Hp 1) false)].
-  - exists vf. eapply (pl_down pc pre F PSValuesDone 1 ValueDone); try eassumption.
+  - exists vf. eapply (pl_down pc pre F PSValuesDone 1 ValueDone 1); try eassumption.
     + exact (lvl18_lvlw pc Hl).
     + apply b18_plain. exact (pitems_pitems18 pc 1 pre F 1 (prefix_pitems pc pre F Hp 1) false).
     + exact I.
@@ -318,48 +421,35 @@ Qed.
 Theorem eng_pline pc line pcf posf vf : pline pc line pcf posf vf -> forall cur, lvl_rel pc cur ->
   exists curf, shadow_run line cur 1 false ValueDone false = SNext curf posf false ValueDone vf /\ lvl_rel pcf curf.
 Proof.
-  induction 1 as [pc pre F pos' Hl Hp|pc pre F pst pos' est tok sc0 pc' rest pcf posf vf Hl Hbd Hsel Hneg Hu Hf Hnh Hb Hline IH];
+  induction 1 as [pc pre F pos' Hl Hp|pc pre F pst pos' est epos tok sc0 pc' rest pcf posf vf Hl Hbd Hsel Hneg Hu Hf Hnh Hb Hline IH];
     intros cur Hrel.
   - exists cur. split; [|exact Hrel]. exact (eng_pitems pc cur (lvlw_el pc cur Hl Hrel) false 1 pre F pos' Hp).
   - pose proof (lvlw_el pc cur Hl Hrel) as L.
-    rewrite shadow_run_app, (eng_body pc cur pre F pst pos' est L Hbd). cbn [shadow_run].
+    rewrite shadow_run_app, (eng_body pc cur pre F pst pos' est epos L Hbd). cbn [shadow_run].
     destruct (level_descent pc cur tok sc0 Hrel (w_app pc Hl) Hf (not_help_name sc0 Hnh)) as [es [pc'' [Hfe [Hb' Hrel']]]].
     rewrite Hb in Hb'. inversion Hb'; subst pc''.
     assert (Hng : (is_set s_args_negate_subs pc && negb (is_nil pre)) = false).
     { destruct (is_set s_args_negate_subs pc) eqn:En; [|reflexivity]. rewrite (Hneg eq_refl). reflexivity. }
-    assert (Hstep : shadow_step tok cur pos' false est (negb (is_nil pre)) = SNext es 1 false ValueDone false).
-    { destruct Hbd as [pre0 F0 pos0 Hp|pre0 F0 pos0 a v1 vs Hp Hm Hn].
+    assert (Hstep : shadow_step tok cur epos false est (negb (is_nil pre)) = SNext es 1 false ValueDone false).
+    { destruct Hbd as [pre0 F0 pos0 Hp|pre0 F0 pos0 a v1 vs Hp Hm Hn|pre0 F0 pos0 a v1 vs Hp Hm Hn].
       - apply (eng_descend_vd tok cur es pos0); [|exact Hu|exact Hfe].
         rewrite <- (lvl_rel_is_set pc cur s_args_negate_subs Hrel). exact Hng.
-      - exact (eng_pos_descend pc cur L tok es pos0 _ _ Hsel Hng Hu Hfe). }
+      - exact (eng_pos_descend pc cur L tok es pos0 _ _ Hsel Hng Hu Hfe).
+      - apply (eng_descend_vd tok cur es (pos0 + 1)); [|exact Hu|exact Hfe].
+        rewrite <- (lvl_rel_is_set pc cur s_args_negate_subs Hrel). exact Hng. }
     rewrite Hstep. apply IH. exact Hrel'.
 Qed.
 
 (** ** the parser side *)
 
-Lemma pos_push_err c a v st e s : pos_push c a v st = RErr e s -> reaction_error c e.
+Lemma body18_err c pre F pst pos est epos : body18 c pre F pst pos est epos -> forall st e s, F st = RErr e s -> reaction_error c e.
 Proof.
-  unfold pos_push.
-  destruct (negb _ || negb _).
-  - destruct (resolve_pending c st) as [st1|e1 s1|x] eqn:RP; cbn [rbind]; try discriminate.
-    + destruct (pending_values_push _ _ _ _ _); cbn [expect rbind]; discriminate.
-    + intros H. inversion H; subst. eapply resolve_pending_err; eauto.
-  - cbn [rbind]. destruct (pending_values_push _ _ _ _ _); cbn [expect rbind]; discriminate.
-Qed.
-
-Lemma push_all_err c a : forall vs st e s, push_all c a vs st = RErr e s -> reaction_error c e.
-Proof.
-  induction vs as [|v t IH]; intros st e s H; cbn [push_all] in H; [discriminate|].
-  destruct (pos_push c a v st) as [st1|e1 s1|x] eqn:E; cbn [rbind] in H.
-  - eapply IH; eauto.
-  - inversion H; subst. eapply pos_push_err; eauto.
-  - discriminate.
-Qed.
-
-Lemma body18_err c pre F pst pos est : body18 c pre F pst pos est -> forall st e s, F st = RErr e s -> reaction_error c e.
-Proof.
-  intros [pre0 F0 pos0 Hp|pre0 F0 pos0 a v1 vs Hp Hm _] st e s H.
+  intros [pre0 F0 pos0 Hp|pre0 F0 pos0 a v1 vs Hp Hm _|pre0 F0 pos0 a v1 vs Hp Hm _] st e s H.
   - eapply pitems18_err; eauto.
+  - destruct (F0 st) as [st1|e1 s1|x] eqn:E; cbn [rbind] in H.
+    + eapply push_all_err; eauto.
+    + inversion H; subst. eapply pitems18_err; eauto.
+    + discriminate.
   - destruct (F0 st) as [st1|e1 s1|x] eqn:E; cbn [rbind] in H.
     + eapply push_all_err; eauto.
     + inversion H; subst. eapply pitems18_err; eauto.
@@ -367,16 +457,16 @@ Proof.
 Qed.
 
 (** one level: its arguments, then [tail] in the loop state they end in *)
-Lemma gmw_levelw c pre F pst pos' est tail : body18 c pre F pst pos' est ->
+Lemma gmw_levelw c pre F pst pos' est epos tail : body18 c pre F pst pos' est epos ->
   (forall f st, fs_skip st = 0 ->
      no_unknown (do lr <- parse_loop c tail (mkL pst pos' (negb (is_nil pre)) false) st; dispatch_lr f c lr)) ->
   forall f st0, fs_skip st0 = 0 -> no_unknown (get_matches_with f c (pre ++ tail) st0).
 Proof.
   intros Hbd Ht f st0 Hfs. destruct f as [|f]; [intros e st H; discriminate H|].
   rewrite gmw_unfold. apply post_no_unknown. rewrite parsed_of_dispatch.
-  rewrite (loop_body18 c pre F pst pos' est Hbd tail st0 Hfs).
+  rewrite (loop_body18 c pre F pst pos' est epos Hbd tail st0 Hfs).
   destruct (F st0) as [st'|e1 s1|x] eqn:EF; cbn [rbind].
-  - apply Ht. destruct (body18_fs c pre F pst pos' est Hbd st0 st' EF) as [H1 _].
+  - apply Ht. destruct (body18_fs c pre F pst pos' est epos Hbd st0 st' EF) as [H1 _].
     rewrite H1. exact Hfs.
   - intros e st H Hk. inversion H; subst. eapply reaction_not_unknown; [eapply body18_err; eauto|exact Hk].
   - intros e st H. discriminate H.
@@ -423,10 +513,10 @@ Theorem parse_pline pc line pcf posf vf : pline pc line pcf posf vf -> forall ta
      no_unknown (do lr <- parse_loop pcf tail (mkL PSValuesDone posf vf false) st; dispatch_lr f pcf lr)) ->
   forall f st0, fs_skip st0 = 0 -> no_unknown (get_matches_with f pc (line ++ tail) st0).
 Proof.
-  induction 1 as [pc pre F pos' Hl Hp|pc pre F pst pos' est tok sc0 pc' rest pcf posf vf Hl Hbd Hsel Hneg Hu Hf Hnh Hb Hline IH];
+  induction 1 as [pc pre F pos' Hl Hp|pc pre F pst pos' est epos tok sc0 pc' rest pcf posf vf Hl Hbd Hsel Hneg Hu Hf Hnh Hb Hline IH];
     intros tail Ht.
-  - apply (gmw_levelw pc pre F PSValuesDone pos' ValueDone tail (b18_plain pc pre F pos' Hp) Ht).
-  - rewrite <- app_assoc. cbn [app]. apply (gmw_levelw pc pre F pst pos' est (tok :: rest ++ tail) Hbd).
+  - apply (gmw_levelw pc pre F PSValuesDone pos' ValueDone pos' tail (b18_plain pc pre F pos' Hp) Ht).
+  - rewrite <- app_assoc. cbn [app]. apply (gmw_levelw pc pre F pst pos' est epos (tok :: rest ++ tail) Hbd).
     intros f st Hfs.
     assert (Hin : In sc0 (c_subs pc) /\ aliases_to sc0 tok = true) by (apply find_some in Hf; exact Hf).
     destruct Hin as [Hin Hal].
@@ -607,26 +697,35 @@ Proof.
 Qed.
 
 (** STATE AGREEMENT on one level, stated for both machines: after the arguments of a level the engine stands in
-    [est] at index [pos] where the parser's loop stands in [pst] at counter [pos] - [ValueDone] / [PSValuesDone], or
-    [Pos pos k] / [PSPos (a_id a)] with [a] the positional at [pos] for both ([find_pos] = [get_pos]) *)
-Theorem state_agreement_positionals pc cur pre F pst pos est : elevel pc cur -> body18 pc pre F pst pos est ->
-  shadow_run pre cur 1 false ValueDone false = SNext cur pos false est (negb (is_nil pre)) /\
+    [est] at index [epos] where the parser's loop stands in [pst] at counter [pos] - [ValueDone] / [PSValuesDone] at the
+    same index, or [Pos pos k] / [PSPos (a_id a)] with [a] the positional at [pos] for both ([find_pos] = [get_pos]),
+    or - round 5, a BOUNDED multi-valued positional [a] that has ALL the values the engine's [num_args] admits -
+    [ValueDone] at [pos + 1] where the parser is still in [PSPos (a_id a)] at [pos] (it keeps collecting: one more
+    plain word is TooManyValues at validation; an option, the terminator or a subcommand name under
+    [subcommand_precedence_over_arg] are read by both as between arguments) *)
+Theorem state_agreement_positionals pc cur pre F pst pos est epos : elevel pc cur -> body18 pc pre F pst pos est epos ->
+  shadow_run pre cur 1 false ValueDone false = SNext cur epos false est (negb (is_nil pre)) /\
   (forall rest st, fs_skip st = 0 ->
      parse_loop pc (pre ++ rest) (lsV 1 false) st =
      (do st' <- F st; parse_loop pc rest (mkL pst pos (negb (is_nil pre)) false) st')) /\
   match est with
-  | ValueDone => pst = PSValuesDone
-  | Pos i k => i = pos /\ exists a, pst = PSPos (a_id a) /\ find_pos cur pos = Some a /\ get_pos pc pos = Some a /\
+  | ValueDone => (pst = PSValuesDone /\ epos = pos) \/
+                 (epos = pos + 1 /\ exists a, pst = PSPos (a_id a) /\ find_pos cur pos = Some a /\ get_pos pc pos = Some a /\
+                    a_is_multiple a = true)
+  | Pos i k => i = pos /\ epos = pos /\ exists a, pst = PSPos (a_id a) /\ find_pos cur pos = Some a /\ get_pos pc pos = Some a /\
                  a_is_multiple a = true /\ k < eng_num_args a
   | Opt _ _ => False
   end.
 Proof.
-  intros L Hbd. split; [exact (eng_body pc cur pre F pst pos est L Hbd)|].
-  split; [exact (loop_body18 pc pre F pst pos est Hbd)|].
-  destruct Hbd as [pre0 F0 pos0 Hp|pre0 F0 pos0 a v1 vs Hp Hm Hn]; [reflexivity|].
-  split; [reflexivity|]. exists a. split; [reflexivity|].
-  destruct Hm as [Hmul [_ [_ Hall]]]. inversion Hall as [|x t [_ [_ [Hg _]]] _]; subst.
-  rewrite (find_pos_el pc cur L pos0). repeat split; assumption.
+  intros L Hbd. split; [exact (eng_body pc cur pre F pst pos est epos L Hbd)|].
+  split; [exact (loop_body18 pc pre F pst pos est epos Hbd)|].
+  destruct Hbd as [pre0 F0 pos0 Hp|pre0 F0 pos0 a v1 vs Hp Hm Hn|pre0 F0 pos0 a v1 vs Hp Hm Hn]; [left; split; reflexivity| |].
+  - split; [reflexivity|]. split; [reflexivity|]. exists a. split; [reflexivity|].
+    destruct Hm as [Hmul [_ [_ Hall]]]. inversion Hall as [|x t [_ [_ [Hg _]]] _]; subst.
+    rewrite (find_pos_el pc cur L pos0). repeat split; assumption.
+  - right. split; [reflexivity|]. exists a. split; [reflexivity|].
+    destruct Hm as [Hmul [_ [_ Hall]]]. inversion Hall as [|x t [_ [_ [Hg _]]] _]; subst.
+    rewrite (find_pos_el pc cur L pos0). repeat split; assumption.
 Qed.
 
 (** * The classes are decidable *)
@@ -720,7 +819,7 @@ Definition lineB : list bytes := line_of [[110; 49]].
 Lemma ex_pline pre2 F posf : pitems18 pc2 false 1 pre2 F posf -> pline root (line_of pre2) pc2 posf (negb (is_nil pre2)).
 Proof.
   intros Hp2. unfold line_of.
-  eapply (pl_down root pre0 _ PSValuesDone 2 ValueDone w_remote _ pc1).
+  eapply (pl_down root pre0 _ PSValuesDone 2 ValueDone 2 w_remote _ pc1).
   - apply lvlw_b_ok. vmr.
   - apply b18_plain. eapply (p18_opt _ false 1 [[45; 118]] _ [b1 97]); [apply i18_base; flag_cluster 118|].
     eapply (p18_pos _ true 1 (b1 97) _ []); [vmr|solve_plain|solve_takes|vmr|apply p18_nil].
@@ -730,7 +829,7 @@ Proof.
   - vmr.
   - vmr.
   - vmr.
-  - unfold pre1. eapply (pl_down pc1 _ _ _ 1 _ [97; 100] _ pc2).
+  - unfold pre1. eapply (pl_down pc1 _ _ _ 1 _ 1 [97; 100] _ pc2).
     + apply lvlw_b_ok. vmr.
     + eapply (b18_multi pc1 _ _ 1 _ [102; 49] [[102; 50]]).
       * eapply (p18_opt _ false 1 [ddw w_pair; b1 97; b1 98]).
@@ -834,7 +933,7 @@ Proof. intros Hs Hn. unfold match_arg_error. cbn [andb]. rewrite Hs, Hn. reflexi
 Lemma eng_plain_positional pc cur tok pos evaf : elevel pc cur ->
   possible_subcommand pc tok evaf = None -> plain_tok tok ->
   shadow_step tok cur pos false ValueDone evaf =
-  match parse_positional cur pos false ValueDone with
+  match parse_positional cur pos false ValueDone tok with
   | Some (st, pi) => SNext cur pi false st true
   | None => SPanic 673
   end.
@@ -860,7 +959,7 @@ Theorem args_conflict_levels pc cur pre F pos tok sc0 :
        parse_loop pc (tok :: rest) (lsV 1 false) st = ROk (LSub n' false false st rest)) /\
   (pre <> [] -> plain_tok tok ->
      shadow_run (pre ++ [tok]) cur 1 false ValueDone false =
-       match parse_positional cur pos false ValueDone with
+       match parse_positional cur pos false ValueDone tok with
        | Some (st, pi) => SNext cur pi false st true
        | None => SPanic 673
        end /\
@@ -894,7 +993,7 @@ Proof.
     split.
     + rewrite shadow_run_app, (eng_pitems pc cur L false 1 pre F pos Hp). cbn [shadow_run orb]. rewrite Hvaf.
       rewrite (eng_plain_positional pc cur tok pos true L (negate_no_sub pc tok Hneg) Hpl).
-      destruct (parse_positional cur pos false ValueDone) as [[st0 pi0]|]; reflexivity.
+      destruct (parse_positional cur pos false ValueDone tok) as [[st0 pi0]|]; reflexivity.
     + intros rest st Hfs.
       assert (Hloop : parse_loop pc (pre ++ tok :: rest) (lsV 1 false) st =
                       (do st' <- F st; parse_loop pc (tok :: rest) (lsV pos true) st')).
